@@ -54,7 +54,7 @@ SReset ==
   /\ IsEv("Reset")
   /\ LET e == Rec[l] IN
      /\ sid' = e.id
-     /\ cfg' = [kind |-> e.kind, crc |-> e.crc, nblocks |-> e.nblocks, cap |-> (IF e.weird THEN 0 ELSE Num(e.cap)), capp |-> e.cap, a41 |-> e.acmd41, csd |-> e.csd, weird |-> e.weird, caprem |-> e.caprem]
+     /\ cfg' = [kind |-> e.kind, crc |-> e.crc, nblocks |-> e.nblocks, cap |-> (IF e.weird THEN 0 ELSE Num(e.cap)), capp |-> e.cap, a41 |-> e.acmd41, csd |-> e.csd, weird |-> e.weird, caprem |-> e.caprem, oor |-> e.oor]
      /\ c' = InitCard(e.acmd41)
      /\ viol' = Report(IF e.weird \/ CsdBlocks(e.csd) = Num(e.cap) THEN {} ELSE {<<"TOOL", "Simulator", "capacity of the generated CSD differs from SdCard.CsdBlocks">>})
   /\ mem' = <<>> /\ exp' = <<>> /\ call' = NoCall /\ seen' = {} /\ needinit' = TRUE /\ first' = TRUE /\ alive' = TRUE
@@ -74,7 +74,8 @@ SCmd ==
   /\ IsEv("Cmd")
   /\ LET e == Rec[l]
          legal == HostLegalWhy(c, cfg.kind, e)
-         r1spec == CardR1(c, cfg.kind, cfg.nblocks, e)
+         \* (a card may report that its read-ahead passed the end of the user area when a multi-block read is stopped)
+         r1spec == IF cfg.oor /\ e.idx = 12 /\ c.mode = "RdMulti" /\ e.r1 = 64 THEN 64 ELSE CardR1(c, cfg.kind, cfg.nblocks, e)
          healthy == e.misb = "none"
          \* the state follows the reply the card actually gave
          r1 == IF e.misb = "silent" THEN -1 ELSE e.r1
